@@ -29,6 +29,8 @@ pub enum TOp {
     IncHashed(u64),
     IncKeys(Vec<u64>),
     IncHashedKeys(Vec<u64>),
+    /// the same hash recorded n times in a row (drives counters to saturation)
+    Burst(u64, u8),
     TryReset,
     Clear,
     /// query estimate / contains of a key and of a raw hash
@@ -66,7 +68,7 @@ fn hash_value() -> BoxedStrategy<u64> {
 
 pub fn tcase_strategy(thorough: bool) -> BoxedStrategy<TCase> {
     let size = if thorough { prop_oneof![6 => 1usize..=64, 1 => Just(4096usize), 1 => 65usize..=1024].boxed() } else { prop_oneof![12 => 1usize..=64, 1 => Just(4096usize)].boxed() };
-    let samples = prop_oneof![5 => 1usize..=8, 5 => 9usize..=64, 1 => 65usize..=600];
+    let samples = prop_oneof![4 => 1usize..=8, 4 => 9usize..=64, 3 => 65usize..=600];
     let fp = prop::sample::select(vec![1e-12f64, 1e-6, 0.01, 0.3, 0.5, 0.999]);
     let kh = prop::sample::select(vec![KhSpec::Default, KhSpec::Ident, KhSpec::Const, KhSpec::Fnv(9), KhSpec::Ident]);
     let maxops = if thorough { 300 } else { 120 };
@@ -75,6 +77,7 @@ pub fn tcase_strategy(thorough: bool) -> BoxedStrategy<TCase> {
         20 => hash_value().prop_map(TOp::IncHashed),
         3 => prop::collection::vec(hash_value(), 0..5).prop_map(TOp::IncKeys),
         3 => prop::collection::vec(hash_value(), 0..5).prop_map(TOp::IncHashedKeys),
+        6 => (prop_oneof![8 => 0u64..4, 1 => hash_value()], 2u8..24).prop_map(|(h, n)| TOp::Burst(h, n)),
         6 => Just(TOp::TryReset),
         1 => Just(TOp::Clear),
         8 => hash_value().prop_map(TOp::Probe),
@@ -213,6 +216,17 @@ fn run_tinylfu_inner(c: &TCase, prop: E7Prop, rep: &mut CaseReport) -> Result<()
                     record(*h, &mut recorded, &mut probes);
                 }
             }
+            TOp::Burst(h, n) => {
+                let h = match c.single {
+                    Some(k) => t.hash_key(&k),
+                    None => *h,
+                };
+                for _ in 0..*n {
+                    both!(|x: &mut TinyLFU<u64, KHS<u64>>| x.increment_hashed_key(h));
+                    m.inc(h);
+                }
+                record(h, &mut recorded, &mut probes);
+            }
             TOp::TryReset => {
                 both!(|x: &mut TinyLFU<u64, KHS<u64>>| x.try_reset());
                 m.try_reset();
@@ -334,7 +348,8 @@ pub enum SOp {
     RemoveHashed(u64),
     Clear,
     UpdateMaxCost(i64),
-    FillSample(Vec<(u64, i64)>),
+    /// input pairs, spare capacity of the input vector
+    FillSample(Vec<(u64, i64)>, u8),
     RoomLeft(i64),
 }
 
@@ -363,7 +378,7 @@ pub fn scase_strategy(thorough: bool) -> BoxedStrategy<SCase> {
         8 => key().prop_map(SOp::RemoveHashed),
         1 => Just(SOp::Clear),
         3 => (-(1i64 << 50)..(1i64 << 50)).prop_map(SOp::UpdateMaxCost),
-        6 => prop::collection::vec((key(), cost()), 0..8).prop_map(SOp::FillSample),
+        6 => (prop::collection::vec((key(), cost()), 0..8), prop_oneof![1 => Just(0u8), 1 => 1u8..40]).prop_map(|(v, slack)| SOp::FillSample(v, slack)),
         8 => cost().prop_map(SOp::RoomLeft),
     ];
     let n = if thorough { 200 } else { 80 };
@@ -487,8 +502,11 @@ fn run_sampled_inner(c: &SCase, prop: E7Prop, rep: &mut CaseReport) -> Result<()
                 s.update_max_cost(*mc);
                 max_cost = *mc;
             }
-            SOp::FillSample(input) => {
-                let outv = s.fill_sample(input.clone());
+            SOp::FillSample(input, slack) => {
+                // the caller's vector may have any spare capacity (a reused scratch buffer)
+                let mut arg: Vec<(u64, i64)> = Vec::with_capacity(input.len() + *slack as usize);
+                arg.extend(input.iter().cloned());
+                let outv = s.fill_sample(arg);
                 if chk {
                     let bad = |why: &str| sv(prop, i, "fill-sample", format!("step {i}: fill_sample({:?}) with samples={} tracked={:?} returned {:?}: {}", input, samples, m, outv, why));
                     if outv.len() < input.len() || outv[..input.len()] != input[..] {
